@@ -20,7 +20,14 @@ static thread_local bool g_abort_flag = false;
 
 using namespace rlbox;
 using W = __int128;
-using Sbx = rlbox_vm_sandbox<vm_abi_wasm32, 12>;
+#if defined(ABI_LP16)
+using Abi = vm_abi_lp16;
+#elif defined(ABI_LP64U)
+using Abi = vm_abi_lp64u;
+#else
+using Abi = vm_abi_wasm32;
+#endif
+using Sbx = rlbox_vm_sandbox<Abi, 12>;
 using RS = rlbox_sandbox<Sbx>;
 static const long SIZE = 4096;
 
@@ -41,7 +48,7 @@ struct PS
 #define sandbox_fields_reflection_vlib_allClasses(f, ...) f(PS, vlib, ##__VA_ARGS__)
 rlbox_load_structs_from_library(vlib);
 
-// The harness' own statement of the guest (wasm32) size of each pointee used below.
+// The harness' own statement of the guest size of each pointee used below, per guest ABI.
 template<typename T>
 struct GuestSize;
 #define GS(T, N)                                                                                                       \
@@ -53,16 +60,34 @@ struct GuestSize;
   };
 GS(char, 1)
 GS(short, 2)
+GS(long long, 8)
+GS(double, 8)
+using IntArr4 = int[4];
+#if defined(ABI_LP16)
+GS(int, 2)
+GS(long, 4)
+GS(unsigned long, 4)
+GS(int*, 2)
+GS(int**, 2)
+GS(PS, 12) // a@0 (4) b@4 (1) c@6 (2) d@8 (2), alignment 4
+GS(IntArr4, 8)
+#elif defined(ABI_LP64U)
+GS(int, 4)
+GS(long, 8)
+GS(unsigned long, 8)
+GS(int*, 8)
+GS(int**, 8)
+GS(PS, 32) // a@0 (8) b@8 (1) c@16 (8) d@24 (2), alignment 8
+GS(IntArr4, 16)
+#else
 GS(int, 4)
 GS(long, 4)
-GS(long long, 8)
 GS(unsigned long, 4)
-GS(double, 8)
 GS(int*, 4)
 GS(int**, 4)
 GS(PS, 16)
-using IntArr4 = int[4];
 GS(IntArr4, 16)
+#endif
 
 template<typename N>
 struct NName;
@@ -232,6 +257,10 @@ static void sweep(std::mt19937_64& rng, Op op, long base, int wrapper, bool exha
   run.s = s;
   // a cell in sandbox memory for the tainted_volatile operand
   static tainted<N*, Sbx> cell = sb->malloc_in_sandbox<N>();
+  // an operand type the guest ABI narrows cannot be held by a tainted_volatile cell
+  if (wrapper == 2 && sizeof(tainted_volatile<N, Sbx>) != sizeof(N)) {
+    return;
+  }
   auto one = [&](W x) {
     N n = (N)x;
     W r = 0;
@@ -492,14 +521,14 @@ static void c17_2d(std::mt19937_64& rng)
   auto& vol2 = *p2;
   for (int w = 0; w < 2; w++) {
     idx_sweep<decltype(app2), int16_t>(rng, app2, "T", "int[4]", 3, sizeof(int) * 4, w, true);
-    idx_sweep<decltype(vol2), int16_t>(rng, vol2, "V", "int[4]", 3, 16, w, true);
+    idx_sweep<decltype(vol2), int16_t>(rng, vol2, "V", "int[4]", 3, GuestSize<IntArr4>::v, w, true);
     idx_sweep<decltype(app2), i64>(rng, app2, "T", "int[4]", 3, sizeof(int) * 4, w, false);
-    idx_sweep<decltype(vol2), u64>(rng, vol2, "V", "int[4]", 3, 16, w, false);
+    idx_sweep<decltype(vol2), u64>(rng, vol2, "V", "int[4]", 3, GuestSize<IntArr4>::v, w, false);
     auto& row_app = app2[1];
     auto& row_vol = vol2[2];
     idx_sweep<decltype(row_app), int16_t>(rng, row_app, "T", "int", 4, sizeof(int), w, true);
-    idx_sweep<decltype(row_vol), int16_t>(rng, row_vol, "V", "int", 4, 4, w, true);
-    idx_sweep<decltype(row_vol), u64>(rng, row_vol, "V", "int", 4, 4, w, false);
+    idx_sweep<decltype(row_vol), int16_t>(rng, row_vol, "V", "int", 4, GuestSize<int>::v, w, true);
+    idx_sweep<decltype(row_vol), u64>(rng, row_vol, "V", "int", 4, GuestSize<int>::v, w, false);
   }
 }
 
